@@ -67,7 +67,9 @@ def r14(run):
     # local names by role (so that renaming a local changes nothing)
     CMD = cmds[0].args[0].id if cmds and cmds[0].args and isinstance(cmds[0].args[0], ast.Name) else 'cmd'
     FLAGS = sorted(set((dotted(c.func) or '').rsplit('.', 1)[0] for c in calls_in(u) if callee_attr(c) == 'append' and c.args and const(c.args[0]) in FLAG_OF.values()))
-    FLAGS = FLAGS[0] if len(FLAGS) == 1 else 'flags'
+    if len(FLAGS) != 1:
+        raise Undecided('_add_ephemeral_service: the flag list is not built here by <list>.append(<flag constant>) (found %s)' % FLAGS)
+    FLAGS = FLAGS[0]
     RES = (names_defined_by(u, lambda v: isinstance(v, ast.Call) and (dotted(v.func) or '').endswith('find_keywords')) or ['res'])[0]
     # --- cmd is built from 'ADD_ONION {key}' by appends only
     cmd_defs = [n for n in walk_unit(u) if isinstance(n, (ast.Assign, ast.AugAssign)) and CMD in assigned_targets(n)]
